@@ -116,3 +116,76 @@ package keeper
 //@ ensures [gate] E != old(E) ==> valid && !ds && launched && member && meter0 >= 0
 //@ ensures [deduct] valid && !ds && launched && member && meter0 >= 0 ==> k.GetSlashMeter(ctx) == meter0 - old(k.GetEffectiveValPower(ctx, p))
 //@ ensures [results-distinct] ccv.V1Result != ccv.SlashPacketHandledResult && ccv.SlashPacketHandledResult != ccv.SlashPacketBouncedResult && ccv.V1Result != ccv.SlashPacketBouncedResult
+
+// ---------------------------------------------------------------- C11: stopping a consumer
+
+//@ func Keeper.StopAndPrepareForConsumerRemoval
+//@ let ub := old(k.stakingKeeper.UnbondingTime(ctx))
+//@ let t := now + ub.0
+//@ let q0 := old(k.GetConsumersToBeRemoved(ctx, t))
+//@ ensures [phase] k.GetConsumerPhase(ctx, consumerId) == types.CONSUMER_PHASE_STOPPED
+//@ ensures [time] result == nil ==> k.GetConsumerRemovalTime(ctx, consumerId).1 == nil && k.GetConsumerRemovalTime(ctx, consumerId).0 == t
+//@ ensures [queued] result == nil ==> len(k.GetConsumersToBeRemoved(ctx, t).0.Ids) == len(q0.0.Ids) + 1 && k.GetConsumersToBeRemoved(ctx, t).0.Ids[len(q0.0.Ids)] == consumerId
+//@ ensures [queue-keep] result == nil ==> forall i int :: 0 <= i && i < len(q0.0.Ids) ==> k.GetConsumersToBeRemoved(ctx, t).0.Ids[i] == q0.0.Ids[i]
+//@ ensures [frame] forall key bytes :: key != types.ConsumerIdToPhaseKey(consumerId) && key != types.ConsumerIdToRemovalTimeKey(consumerId) && key != types.RemovalTimeToConsumerIdsKey(t) ==> S[key] == old(S[key])
+//@ ensures [no-deps] E == old(E) && X == old(X)
+
+// ---------------------------------------------------------------- C17: consumer - client - channel binding
+
+//@ func Keeper.VerifyConsumerChain
+//@ let cl := old(k.getUnderlyingClient(ctx, connectionHops[0]))
+//@ let c := old(k.GetClientIdToConsumerId(ctx, cl.0))
+//@ ensures [hops] len(connectionHops) != 1 ==> result != nil
+//@ ensures [def] result == nil ==> len(connectionHops) == 1 && cl.2 == nil && c.1 && old(k.GetConsumerClientId(ctx, c.0)).1 && old(k.GetConsumerClientId(ctx, c.0)).0 == cl.0 && !old(k.GetConsumerIdToChannelId(ctx, c.0)).1
+//@ ensures [complete] len(connectionHops) == 1 && cl.2 == nil && c.1 && old(k.GetConsumerClientId(ctx, c.0)).1 && old(k.GetConsumerClientId(ctx, c.0)).0 == cl.0 && !old(k.GetConsumerIdToChannelId(ctx, c.0)).1 ==> result == nil
+//@ ensures [pure] S == old(S) && E == old(E) && X == old(X)
+
+//@ func Keeper.SetConsumerChain
+//@ let ch := old(k.channelKeeper.GetChannel(ctx, ccv.ProviderPortID, channelID))
+//@ let cl := old(k.getUnderlyingClient(ctx, ch.0.ConnectionHops[0]))
+//@ let c := old(k.GetClientIdToConsumerId(ctx, cl.0))
+//@ ensures [bind-pre] result == nil ==> ch.1 && len(ch.0.ConnectionHops) == 1 && cl.2 == nil && c.1 && !old(k.GetConsumerIdToChannelId(ctx, c.0)).1
+//@ ensures [bind] result == nil ==> k.GetConsumerIdToChannelId(ctx, c.0).1 && k.GetConsumerIdToChannelId(ctx, c.0).0 == channelID && k.GetChannelIdToConsumerId(ctx, channelID).1 && k.GetChannelIdToConsumerId(ctx, channelID).0 == c.0
+//@ ensures [init-height] result == nil ==> k.GetInitChainHeight(ctx, c.0).1 && k.GetInitChainHeight(ctx, c.0).0 == height
+//@ ensures [reject] result != nil ==> S == old(S)
+//@ ensures [frame] forall key bytes :: key != types.ConsumerIdToChannelIdKey(c.0) && key != types.ChannelToConsumerIdKey(channelID) && key != types.InitChainHeightKey(c.0) ==> S[key] == old(S[key])
+//@ ensures [no-deps] E == old(E) && X == old(X)
+
+// ---------------------------------------------------------------- C06: resolving consumer addresses
+
+//@ func Keeper.GetProviderAddrFromConsumerAddr
+//@ let m := old(k.GetValidatorByConsumerAddr(ctx, consumerId, consumerAddr))
+//@ ensures [resolve] m.1 ==> result == m.0
+//@ ensures [identity] !m.1 ==> result == types.NewProviderConsAddress(consumerAddr.ToSdkConsAddr())
+//@ ensures [pure] S == old(S) && E == old(E) && X == old(X)
+
+// ---------------------------------------------------------------- C09: slash meter
+
+//@ func Keeper.ReplenishSlashMeter
+//@ let m := old(k.GetSlashMeter(ctx))
+//@ let a := old(k.GetSlashMeterAllowance(ctx))
+//@ requires present(providertypes.SlashMeterKey())
+//@ requires 0 - MaxTotalVotingPower <= a && a <= MaxTotalVotingPower && 0 - MaxTotalVotingPower <= m && m <= MaxTotalVotingPower
+//@ ensures [def] k.GetSlashMeter(ctx) == min(m + a, a)
+//@ ensures [frame] forall key bytes :: key != providertypes.SlashMeterKey() ==> S[key] == old(S[key])
+//@ ensures [no-deps] E == old(E) && X == old(X)
+
+//@ func Keeper.CheckForSlashMeterReplenishment
+//@ let m := old(k.GetSlashMeter(ctx))
+//@ let a := old(k.GetSlashMeterAllowance(ctx))
+//@ let cand := old(k.GetSlashMeterReplenishTimeCandidate(ctx))
+//@ let period := old(k.GetSlashMeterReplenishPeriod(ctx))
+//@ requires present(providertypes.SlashMeterKey()) && present(providertypes.SlashMeterReplenishTimeCandidateKey())
+//@ requires 1 <= a && a <= MaxTotalVotingPower && 0 - MaxTotalVotingPower <= m && m <= MaxTotalVotingPower
+//@ ensures [le] k.GetSlashMeter(ctx) <= a
+//@ ensures [not-due] now < cand ==> k.GetSlashMeter(ctx) == min(m, a)
+//@ ensures [due] now >= cand ==> k.GetSlashMeter(ctx) == min(m + a, a) && k.GetSlashMeterReplenishTimeCandidate(ctx) == now + period
+//@ ensures [one-allowance] k.GetSlashMeter(ctx) <= m + a
+//@ ensures [cand] k.GetSlashMeterReplenishTimeCandidate(ctx) == cand || k.GetSlashMeterReplenishTimeCandidate(ctx) == now + period
+//@ ensures [full-resets] k.GetSlashMeter(ctx) == a && (m >= a || now >= cand) ==> k.GetSlashMeterReplenishTimeCandidate(ctx) == now + period
+//@ ensures [frame] forall key bytes :: key != providertypes.SlashMeterKey() && key != providertypes.SlashMeterReplenishTimeCandidateKey() ==> S[key] == old(S[key])
+//@ ensures [no-deps] E == old(E) && X == old(X)
+
+//@ func Keeper.GetSlashMeterAllowance
+//@ ensures [ge1] dec_of_str(k.GetSlashMeterReplenishFraction(ctx)) >= 0 && k.stakingKeeper.GetLastTotalPower(ctx).0 >= 0 ==> result >= 1
+//@ ensures [pure] S == old(S) && E == old(E) && X == old(X)
